@@ -36,3 +36,12 @@ Example C06_former_crash_input_displays :
   exists m s, from_bytes [x01; x00; x00; x00; x43; x45; x52; x54; xff; xff; xff; xff] = Ok m
               /\ m <> [] /\ to_string m = Ok s.
 Proof. eexists. eexists. split; [vm_compute; reflexivity|]. split; [discriminate|vm_compute; reflexivity]. Qed.
+
+(* ---- tie to the source: the integer literals of the functions this property's model stands for
+   (private constants, bounds, unit factors; the files are SiteMap.files_C06) are today the ones the
+   model was written against. Gen/Sites.v num_literals is regenerated from /repo on every run; a
+   changed, added or removed number in a modelled function breaks this obligation ---- *)
+Require RV.Gen.Sites RV.Model.SiteMap.
+Theorem C06_literals_reviewed : RV.Model.SiteMap.literals_ok RV.Model.SiteMap.files_C06.
+Proof. repeat constructor. Qed.
+Print Assumptions C06_literals_reviewed.
